@@ -146,6 +146,15 @@ class Radio:
         """the field open_rx_pipe(0, addr) stores the caller's address in (besides the register shadow)"""
         if getattr(self, "_p0f", None):
             return self._p0f
+        if getattr(self, "_p0f_busy", False):
+            return None          # asked from a hook while the inference itself is running open_rx_pipe()
+        self._p0f_busy = True
+        try:
+            return self._infer_p0f()
+        finally:
+            self._p0f_busy = False
+
+    def _infer_p0f(self):
         f = self.prog.method(self.cls, "open_rx_pipe")
         st = self.fresh()
         probe = Bytes([(("const", b"\x11\x22\x33\x44\x55"), Const(5))], "bytes")
